@@ -3,7 +3,8 @@
 1. TLC model-checks control/Propagate.tla: statement-level transcriptions of both overloads of
    control::SpaceInformation::propagateWhileValid over an integer integrator, every step count in
    -8..8 x every validity pattern x alloc / capacity, against the documented contract (count =
-   leading valid steps, result = state after that many steps, overloads agree, nothing leaks).
+   leading valid steps, result = state after that many steps, overloads agree, nothing leaks);
+   thorough tier: -10..10.
 2. Every case TLC enumerated is printed with the expectation the CONTRACT computes and replayed on
    the real SpaceInformation (integer propagator on R^1, counting state space, 3 embeddings).
 3. Control planners (RRT with / without intermediate states, SST, EST, KPIECE1, PDST, SyclopRRT,
@@ -146,7 +147,7 @@ def _matrix(tier, base_seed):
         s = rng.choice(free)
         g = rng.choice(range(16)) if rng.random() < 0.15 else rng.choice(free)
         layouts.append(("rand%d" % i, cells, s, g, rng.choice(["normal", "normal", "normal", "tiny"])))
-    budgets = [0, 4, 120, 1500, 6000]
+    budgets = [0, 4, 120, 1500, 6000] + ([] if tier == "quick" else [20000])
     nseeds = 1 if tier == "quick" else 3
     rows = []
     for planner in PLANNERS:
@@ -156,6 +157,10 @@ def _matrix(tier, base_seed):
                     for step in steps:
                         for dcs in ((1, 3) if planner in DIRECTED else (1,)):
                             for budget in budgets:
+                                if g in cells and planner.startswith("Syclop"):
+                                    # PlannerInputStates::nextGoal(ptc) sleeps between attempts while the goal
+                                    # yields no valid sample: keep the (wall-clock) cost of INVALID_GOAL small
+                                    budget = min(budget, 40)
                                 for k in range(nseeds):
                                     rows.append((planner, system, name, _mask(cells), s, g, thr, mn, mx, step, dcs, budget, k))
     if tier == "quick":
@@ -258,8 +263,17 @@ def _planner_part(ck, binary, tier):
             rp = ck.replay_file("crash-run.txt", culprit + "\n")
             ck.violation("crash:" + (culprit.split()[1] if culprit != "?" else "record"),
                          "planner run crashed / harness aborted (rc=%s) on run: %s; %s" % (rc, culprit, (err or out)[-500:]), rp)
-    traces = [tp for (_, _, tp) in shards if os.path.exists(tp)]
-    with concurrent.futures.ProcessPoolExecutor(min(8, len(traces))) as ex:
+    # concatenate the shards into a few logs (one JVM start each)
+    ngroups = 1 if tier == "quick" else 8
+    traces = []
+    for gi in range(ngroups):
+        gp = os.path.join(d, "trace-all-%d.ndjson" % gi)
+        with open(gp, "w") as f:
+            for (_, _, tp) in shards[gi::ngroups]:
+                if os.path.exists(tp):
+                    f.write(open(tp).read())
+        traces.append(gp)
+    with concurrent.futures.ProcessPoolExecutor(min(4, len(traces))) as ex:
         vres = list(ex.map(_validate, traces))
     stats = {}
     events = {}
@@ -367,7 +381,7 @@ def run(tier):
     import time
     t0 = time.time()
     binary = build_harness("control", needs_lib=True)
-    _propagation_part(ck, binary, 8)
+    _propagation_part(ck, binary, 8 if tier == "quick" else 10)
     t1 = time.time()
     _planner_part(ck, binary, tier)
     ck.set("phase_wall_s", {"build+propagation": round(t1 - t0, 1), "planners": round(time.time() - t1, 1)})
